@@ -117,6 +117,17 @@ Example c31_example_slow_consumer :
   check_C31_code 30 5 false [ES 0 1; ES 100 101; EG 110; EG 200; EEnd 300] = 0.
 Proof. exact (conj coalescer_slow_consumer_run coalescer_slow_consumer_rejects). Qed.
 
+(* Strobe is a blocking rendezvous: a strobe issued at any moment -- time 0
+   included -- is received by the loop and delivered. *)
+Example c31_example_strobe_at_zero :
+  (exists s, crun 3 true cinit [AStrobe; ATick; ATick; ATick; AFire; AHandle; ATake; ATick; AEnd] = Some s /\
+     chistory s = [ES 0 0; EG 3; EEnd 4] /\ last s = Some 0%N /\ owed s = false /\ taken s = 1 /\
+     check_C31 3 0 true (chistory s) = true) /\
+  check_C31_code 5000 15000 true [ES 0 3; EEnd 300000] = 2 /\
+  check_C31_code 5000 15000 false [ES 0 3; EP 300000; EEnd 300001] = 2 /\
+  check_C31_code 1500 15000 false [ES 10 12; EG 1600; ES 1600 1601; EP 400000; EEnd 400001] = 2.
+Proof. exact coalescer_strobe_at_zero. Qed.
+
 Print Assumptions c31_at_most_one.
 Print Assumptions c31_strobe_arms.
 Print Assumptions c31_delivered.
